@@ -24,6 +24,11 @@ use {
 #[cfg(not(kani))]
 use crate::kani;
 
+/// Weights range over 0..2^62: with at most 3 arcs on a shortest path every
+/// path sum (and every sum Dijkstra or the reference forms) stays below 2^64,
+/// so "path sums fit in usize" holds, while distances >= usize::MAX / 2 occur.
+pub const WMAX: usize = 1 << 62;
+
 /// Every simple arc-weighted digraph on N vertices with at most M arcs and
 /// weights < WMAX (zero included), as a symbolic arc list.
 pub fn any_arcs<const N: usize, const M: usize>(wmax: usize) -> AL<M, usize> {
@@ -64,7 +69,7 @@ pub fn any_sources<const N: usize>(kmax: usize) -> [bool; N] {
 fn distances_sparse<const N: usize, const M: usize>() {
     cx::set_vcap(N + M);
 
-    let g = any_arcs::<N, M>(16);
+    let g = any_arcs::<N, M>(WMAX);
     let src = any_sources::<N>(2);
     let want = g.dense::<N>().dist(&src);
     let mut it = DijkstraDist::new(&g, mask(src));
@@ -85,7 +90,7 @@ fn distances_sparse<const N: usize, const M: usize>() {
 fn iter_sparse<const N: usize, const M: usize>() {
     cx::set_vcap(N + M);
 
-    let g = any_arcs::<N, M>(16);
+    let g = any_arcs::<N, M>(WMAX);
     let src = any_sources::<N>(2);
     let want = g.dense::<N>().dist(&src);
     let mut seen = [false; N];
@@ -120,7 +125,7 @@ fn iter_sparse<const N: usize, const M: usize>() {
 fn iter_dist_sparse<const N: usize, const M: usize>() {
     cx::set_vcap(N + M);
 
-    let g = any_arcs::<N, M>(16);
+    let g = any_arcs::<N, M>(WMAX);
     let src = any_sources::<N>(2);
     let want = g.dense::<N>().dist(&src);
     let mut seen = [false; N];
@@ -156,7 +161,7 @@ fn iter_dist_sparse<const N: usize, const M: usize>() {
 fn distances_repr<const N: usize, const M: usize>() {
     cx::set_vcap(N + M);
 
-    let g = any_arcs::<N, M>(16);
+    let g = any_arcs::<N, M>(WMAX);
     let src = any_sources::<N>(2);
     let want = g.dense::<N>().dist(&src);
     let mut d = AdjacencyListWeighted::<usize>::empty(N);
